@@ -22,13 +22,45 @@ class Entry:
     bound_kw: Tuple[Tuple[str, ast.expr], ...]
     lineno: int
     value_src: str
+    opaque: bool = False       # the value is not `f` / `partial(f, ...)` over a module-level function: it is evaluated symbolically
 
     @property
     def where(self) -> str:
         return f"{self.module.name}.handlers[{self.key!r}]"
 
 
+def _wrapper(v: ast.expr, key: str, lineno: int) -> ast.FunctionDef:
+    """def <key>(parser, events): return (<registry value>)(parser, events)   - what the dispatcher does with the entry"""
+    src = f"def __registry_entry__(parser, events):\n    return (__VALUE__)(parser, events)\n"
+    fn = ast.parse(src).body[0]
+    import copy
+
+    class _Sub(ast.NodeTransformer):
+        def visit_Name(self, n):
+            return copy.deepcopy(v) if n.id == "__VALUE__" else n
+    fn = _Sub().visit(fn)
+    for n in ast.walk(fn):
+        if hasattr(n, "lineno") or isinstance(n, (ast.expr, ast.stmt)):
+            n.lineno = lineno
+            n.col_offset = 0
+            n.end_lineno = lineno
+            n.end_col_offset = 0
+    ast.fix_missing_locations(fn)
+    fn.name = "entry_" + "".join(ch if ch.isalnum() else "_" for ch in key)
+    return fn
+
+
 def _resolve_value(repo: Repo, mod: ModuleInfo, key: str, family: str, v: ast.expr, lineno: int) -> Entry:
+    try:
+        return _resolve_direct(repo, mod, key, family, v, lineno)
+    except AnalysisError:
+        # a closure made by a factory, a helper call such as nocancel(handle_x), a name bound to either ...: the value
+        # is evaluated by the interpreter when the entry is run
+        name = v.id if isinstance(v, ast.Name) else (ast.unparse(v.func) if isinstance(v, ast.Call) else ast.unparse(v))[:40]
+        return Entry(key, family, mod, name, _wrapper(v, key, lineno), (), (), lineno, ast.unparse(v), True)
+
+
+def _resolve_direct(repo: Repo, mod: ModuleInfo, key: str, family: str, v: ast.expr, lineno: int) -> Entry:
     pos: Tuple[ast.expr, ...] = ()
     kw: Tuple[Tuple[str, ast.expr], ...] = ()
     fn_node = v
